@@ -1,22 +1,24 @@
 #!/bin/sh
 # re-runs, for every kept seed, the check(s) that caught it (meta.json caught_by) on a scratch copy with the patch applied;
-# prints one line per seed: caught / NOT CAUGHT / patch does not apply
+# prints one line per seed: caught / NOT CAUGHT / patch does not apply.   usage: tools/recheck_seeds.sh [parallel, default 4]
 cd /verif
-for d in seeded/*/; do
-  N=$(basename $d)
-  [ -f $d/patch.diff ] || continue
+J=${1:-4}
+one() {
+  N=$1; d=seeded/$N
   PS=$(.venv/bin/python -c "
 import json,sys
 m=json.load(open('$d/meta.json'))
 ps=sorted({c.split()[0] for c in m.get('caught_by',[]) if c.split() and c.split()[0].startswith('C')}) or [m['property']]
 print(' '.join(ps[:2]))")
   S=/dev/shm/recheck_$N; rm -rf $S; mkdir -p $S; rsync -a /repo/androguard $S/
-  if ! (cd $S && patch -p1 -s < /verif/$d/patch.diff) >/dev/null 2>&1; then echo "$N: patch does not apply"; rm -rf $S; continue; fi
+  if ! (cd $S && patch -p1 -s < /verif/$d/patch.diff) >/dev/null 2>&1; then echo "$N: patch does not apply"; rm -rf $S; return; fi
   R=""
   for P in $PS; do
-    n=$(VERIF_REPO=$S VERIF_OUT=/dev/shm/recheck_out_$N timeout 1500 ./check $P 2>&1 | grep -c "^VIOLATION")
+    n=$(VERIF_REPO=$S VERIF_OUT=/dev/shm/recheck_out_$N timeout 2400 ./check $P 2>&1 | grep -c "^VIOLATION")
     R="$R $P=$n"
   done
   rm -rf $S /dev/shm/recheck_out_$N
   case "$R" in *=[1-9]*) echo "$N: caught$R";; *) echo "$N: NOT CAUGHT$R";; esac
-done
+}
+if [ -n "$2" ]; then one $2; exit; fi
+ls seeded | grep -v README | xargs -P $J -I{} sh $0 $J {}
